@@ -317,6 +317,63 @@ theorem new_find_eq_of_cert (needle haystack : Slice) (c : Ctr) (hnv : needle.Va
   · have := h2 hhalf
     omega
 
+/-! ### the shape consumed by the memmem layer (`Proofs/Searcher.lean`) -/
+
+/-- a strategy that is sound on *every* valid haystack (the form `Memmem.PreSound` has: it
+returns normally, and if the needle occurs at `q` the result is `some a` with `a <= q`) is
+sound on the tails of a given haystack -/
+theorem preSound_of_global {needle haystack : Slice} {strat : Slice → M (Option Nat)}
+    (hhv : haystack.Valid)
+    (h : ∀ hay : Slice, hay.Valid → ∀ c, ∃ r c', strat hay c = .ok r c' ∧
+      ∀ q, Spec.OccAt hay.toArray needle.toArray q → ∃ a, r = some a ∧ a ≤ q) :
+    PreSound needle haystack strat := by
+  intro a ha c
+  obtain ⟨r, c', e, hr⟩ := h (tailFrom haystack a) (tailFrom_valid hhv ha) c
+  refine ⟨r, c', e, ?_, ?_⟩
+  · intro hnone q hocc
+    obtain ⟨a', ha', _⟩ := hr q hocc
+    rw [hnone] at ha'; cases ha'
+  · intro cnd hsome q hocc
+    obtain ⟨a', ha', hle⟩ := hr q hocc
+    rw [hsome] at ha'; cases ha'
+    exact hle
+
+theorem toArray_eq_of_toList_eq {n n0 : Slice} (hn : n.Valid) (hn0 : n0.Valid)
+    (h : n.toList = n0.toList) : n.toArray = n0.toArray := by
+  apply Array.toList_inj.mp
+  rw [Slice.toArray_toList hn, Slice.toArray_toList hn0, h]
+
+/-- `Finder::new(n0)` then `find_with_prefilter(pre, hay, n)` where the search needle `n` holds
+the same bytes as the construction needle `n0` (possibly in another region): the leftmost
+occurrence, for every prefilter that is sound on every valid haystack, in every prefilter
+state - provided the values computed by `Finder::new` satisfy the certificate (T1-T3). -/
+theorem find_ok_of_cert (n0 n hay : Slice) (tw : TwoWay) (c0 c0' : Ctr)
+    (hn0 : n0.Valid) (hn : n.Valid) (hh : hay.Valid) (hbytes : n.toList = n0.toList)
+    (hnew : Finder.new n0 c0 = .ok tw c0')
+    (hcert : CertFwd n0.toArray tw.criticalPos tw.shift)
+    (pre : Option Pre)
+    (hpre : ∀ p, pre = some p → ∀ h' : Slice, h'.Valid → ∀ c, ∃ r c', p.strat h' c = .ok r c' ∧
+      ∀ q, Spec.OccAt h'.toArray n.toArray q → ∃ a, r = some a ∧ a ≤ q)
+    (c : Ctr) :
+    ∃ pre' c', Finder.findWithPrefilter tw pre hay n c =
+      .ok (Spec.leftmost hay.toArray n.toArray, pre') c' := by
+  have harr := toArray_eq_of_toList_eq hn hn0 hbytes
+  obtain ⟨tw', c1, e1, _, hbs, _⟩ := finder_new_spec n0 c0 hn0
+  rw [hnew] at e1
+  cases e1
+  cases pre with
+  | none =>
+    obtain ⟨pre', c', e, _⟩ := find_eq_of_cert tw n hay none c (fun _ => pure none) hn hh
+      (by rw [harr]; exact hcert) (by rw [harr]; exact hbs) (fun p hp => by cases hp)
+      (fun h => absurd rfl h)
+    exact ⟨pre', c', e⟩
+  | some p =>
+    obtain ⟨pre', c', e, _⟩ := find_eq_of_cert tw n hay (some p) c p.strat hn hh
+      (by rw [harr]; exact hcert) (by rw [harr]; exact hbs)
+      (fun p' hp' => by cases hp'; rfl)
+      (fun _ => preSound_of_global hh (hpre p rfl))
+    exact ⟨pre', c', e⟩
+
 /-! ### non-vacuity -/
 
 /-- the hypotheses of `find_eq_of_cert` hold for the needle "abaab" (region 1, base 4096) with
@@ -348,6 +405,7 @@ example : SoundPre "abcde".toUTF8.data 4 (.large 4) := by
 #print axioms finder_new_spec
 #print axioms new_find_sound
 #print axioms new_find_eq_of_cert
+#print axioms find_ok_of_cert
 #print axioms certFwdCheck_iff
 
 end Memchr.TwoWay
